@@ -80,6 +80,10 @@ def hdr(h, rng):
 
 def run(chk):
     proof_ok = chk.proofs()
+    # "the server's extraction of the data part of that name yields exactly that prefix" is a statement about the session machine too (which codec
+    # a user slot decodes with, also after the slot was re-used): generated sessions through the real loop and the Lean server model
+    import srvcheck
+    srvcheck.model_only(chk, "C08", runs=24 if chk.tier == "thorough" else 8, nsteps=300, seed_mul=32452843)
     exe = vlib.build_harness("h_pure", ["h_pure.c"], vlib.PURE_OBJS)
     cases = gen_cases(chk)
     heads = [hdr(h, chk.rng) for (_, _, h, _, _) in cases]
